@@ -57,4 +57,58 @@ theorem reserve_tie (add : Nat) (s : St) (hd : DataOk s.hp) (hr : RawOk s.self) 
                 rt_step [Handle.len, hc', hg, h1, h3, hw, moveTo, take_len_block hd hg h3, replace_inner_step, hrl, resOf,
                   hr_is_unique_some rf st hp a l _ hg, hr_as_str_some rf st hp a l _ hg]
           · rt_step [Handle.len, hc', hg, h1, h3, resOf, hr_is_unique_some rf st hp a l _ hg, hr_as_str_some rf st hp a l _ hg]
+/-- the same tie in the form a caller rewrites with -/
+theorem reserve_norm {ρ' : Type} (add : Nat) (s : St) (hd : DataOk s.hp) (hr : RawOk s.self) :
+    (norm (GenRepr.Repr.reserve add s) : Step ρ' (Rs Unit)) = stepOfRes s.rf s.st (reserve s.rf s.st s.hp s.self add) := by
+  rcases s with ⟨rf, st, hp, r⟩
+  unfold GenRepr.Repr.reserve reserve
+  cases hc : checkedAdd r.len add with
+  | none => rt_step [hc, norm, stepOfRes]
+  | some needed =>
+    cases r with
+    | inl raw =>
+      -- no `rfl`-equation lemma may touch a term containing `inlLen raw` (see RtLemmas.lean): facts go in as hypotheses
+      have hlen : (Handle.inl raw).len = inlLen raw := rfl
+      have hc' : checkedAdd (inlLen raw) add = some needed := hc
+      have htx : textOf hp st (.inl raw) = .ok (raw.take (inlLen raw)) := rfl
+      by_cases h : needed > MAX_INLINE
+      · rcases hw : heapWithAdditional rf hp (raw.take (inlLen raw)) add with ⟨o, hp1⟩
+        cases o with
+        | none =>
+          have hmv : moveTo hp (.inl raw) (inlLen raw) (none, hp1) = .err hp1 (.inl raw) := rfl
+          rt_step [hlen, hc', h, hw, htx, hmv]; rfl
+        | some a' =>
+          have hmv : moveTo hp (.inl raw) (inlLen raw) (some a', hp1) = .ok () hp1 (.heap a' (inlLen raw)) := rfl
+          rt_step [hlen, hc', h, hw, htx, hmv, take_len_raw hr]; rfl
+      · rt_step [hlen, hc', h]; rfl
+    | stat i l =>
+      have hc' : checkedAdd l add = some needed := hc
+      cases ht : textOf hp st (.stat i l) with
+      | error u => by_cases h : needed ≤ MAX_INLINE <;> rt_step [Handle.len, hc', h, ht, norm, stepOfRes]
+      | ok t =>
+        have hl := textOf_stat_len ht
+        by_cases h : needed ≤ MAX_INLINE
+        · rt_step [Handle.len, hc', h, ht, norm, stepOfRes]
+        · rcases hw : heapWithAdditional rf hp t add with ⟨o, hp1⟩
+          cases o <;> rt_step [Handle.len, hc', h, ht, hw, moveTo, hl, norm, stepOfRes, releaseRepr]
+    | heap a l =>
+      have hc' : checkedAdd l add = some needed := hc
+      cases hg : hp.get? a with
+      | none => rt_step [Handle.len, hc', hg, norm, stepOfRes, hr_is_unique_none rf st hp a l _ hg]
+      | some b =>
+        by_cases h1 : b.rc = 1
+        · by_cases h2 : b.cap ≥ needed
+          · rt_step [Handle.len, hc', hg, h1, h2, norm, stepOfRes, hr_is_unique_some rf st hp a l _ hg, hr_capacity_some rf st hp a l _ hg]
+          · cases hre : hp.realloc rf a (Gen.amortizedGrowth l add) <;>
+              rt_step [Handle.len, hc', hg, h1, h2, hre, norm, stepOfRes, hr_is_unique_some rf st hp a l _ hg, hr_capacity_some rf st hp a l _ hg]
+        · by_cases h3 : l ≤ b.cap
+          · rcases hw : heapWithAdditional rf hp (b.data.take l) add with ⟨o, hp1⟩
+            cases o with
+            | none => rt_step [Handle.len, hc', hg, h1, h3, hw, moveTo, norm, stepOfRes, hr_is_unique_some rf st hp a l _ hg, hr_as_str_some rf st hp a l _ hg]
+            | some a' =>
+              cases hrl : releaseRepr hp1 (.heap a l) <;>
+                rt_step [Handle.len, hc', hg, h1, h3, hw, moveTo, take_len_block hd hg h3, replace_inner_step, hrl, norm, stepOfRes,
+                  hr_is_unique_some rf st hp a l _ hg, hr_as_str_some rf st hp a l _ hg]
+          · rt_step [Handle.len, hc', hg, h1, h3, norm, stepOfRes, hr_is_unique_some rf st hp a l _ hg, hr_as_str_some rf st hp a l _ hg]
+
 end LS.GenTie
